@@ -92,6 +92,23 @@ def structural(find_def):
                     and is_filter_of_body(e.args[1]))
 
         ok = len(rets) == 1 and rets[0].value is not None and not ast.unparse(rets[0].value) == "parsed_ast.body" and is_filter_of_body(rets[0].value)
+    # upsert_routes, the branch that APPENDS the missing routes to an existing module: what it writes starts on a new line (the
+    # module it appends to need not end with one -- the module upsert_routes itself creates does not), otherwise the first
+    # appended decorator is glued to the last statement (`response.status = 204@app.post(...)` still parses) and every route
+    # of the second model is lost
+    fu = find_def("cdd.compound.openapi.gen_routes", "upsert_routes")
+    oku, detailu = None, "upsert_routes not found"
+    if fu is not None:
+        withs = [n for n in ast.walk(fu) if isinstance(n, ast.With) and any(isinstance(i.context_expr, ast.Call) and ast.unparse(i.context_expr.func) == "open"
+                 and len(i.context_expr.args) > 1 and isinstance(i.context_expr.args[1], ast.Constant) and i.context_expr.args[1].value == "a" for i in n.items)]
+        oku, detailu = None, "the appending `with open(routes_path, 'a')` was not found"
+        if len(withs) == 1:
+            first = withs[0].body[0]
+            arg = first.value.args[0] if isinstance(first, ast.Expr) and isinstance(first.value, ast.Call) and ast.unparse(first.value.func).endswith(".write") and first.value.args else None
+            head = arg.left if isinstance(arg, ast.BinOp) and isinstance(arg.op, ast.Add) else arg
+            oku = isinstance(head, ast.Constant) and isinstance(head.value, str) and head.value.startswith("\n")
+            detailu = "the first thing the append branch writes starts with a line break" if oku else "the append branch starts by writing: %s" % (ast.unparse(arg)[:80] if arg is not None else ast.unparse(first)[:80])
+    out.append(("upsert_routes/appended-routes-start-on-a-new-line", oku, detailu))
     out.append(("openapi_bulk.parse_route/selects-nodes-of-the-module-body", ok,
                 "parse_route returns filter(..., filter(..., parsed_ast.body)): every route function of the module is kept or dropped on its own"))
     return out
